@@ -2,3 +2,4 @@ import Proofs.Basic
 import Proofs.Codec
 import Proofs.Pool
 import Proofs.CloseLock
+import Proofs.ReadFull
